@@ -23,6 +23,7 @@ import numpy as np
 from mc import runner, seams
 
 AUTOSAVE_DT = 11.0
+INNER_STEP_FUNCTIONS = ("evolve_pair", "evolve_single", "minimize_energy_pair", "new_left_bath", "new_right_bath")
 
 
 @contextlib.contextmanager
@@ -48,15 +49,24 @@ def _first_outcome(probs, num_samples, k):
 class Session:
     """One process lifetime (until completion or crash) of a run or of a resume."""
 
-    def __init__(self, workdir, save_calls=(), crash_after_save_call=None, fs_target=None, rng=None, optimiser=None, np_script=None):
+    def __init__(self, workdir, save_calls=(), crash_after_save_call=None, fs_target=None, rng=None, optimiser=None, np_script=None, interrupt_at=None, count_inner=False):
         """
         save_calls            progress()-call indices (0-based, counted in this session) at which the clock jumps past autosave_dt
         crash_after_save_call index of the progress() call right after whose completed autosave the process dies
         fs_target             (ordinal of the autosave inside this session (0-based), event index, when) - crash inside that autosave;
                               (ordinal, None, None) only records the events of that autosave
+        save_calls="all"      autosave after every progress() call
+        interrupt_at          j: the process is interrupted (an exception that is not an Exception, like KeyboardInterrupt) when the j-th
+                              call (0-based, counted over INNER_STEP_FUNCTIONS together) of the stepping code is entered, i.e. in the
+                              MIDDLE of a progress() step
+        count_inner           count those calls (self.inner_calls) without interrupting
         """
         self.workdir = workdir
-        self.save_calls = set(save_calls)
+        self.save_all = save_calls == "all"
+        self.save_calls = set() if self.save_all else set(save_calls)
+        self.interrupt_at = interrupt_at
+        self.count_inner = count_inner
+        self.inner_calls = 0
         self.crash_after = crash_after_save_call
         self.fs_target = fs_target
         self.rng = rng
@@ -81,7 +91,7 @@ class Session:
             i = sess.calls
             sess.calls += 1
             sess.autosave_file = impl.autosave_file
-            if i in sess.save_calls:
+            if sess.save_all or i in sess.save_calls:
                 clock.advance(AUTOSAVE_DT + 1.0)
                 ordinal = sess.saves
                 sess.saves += 1
@@ -116,6 +126,20 @@ class Session:
                 stack.enter_context(seams.pulser_np_random(**self.np_script))
             stack.enter_context(contextlib.redirect_stdout(io.StringIO()))
             impl_mod.MPSBackendImpl.save_simulation = save_wrapper
+            saved_inner = {}
+            if self.interrupt_at is not None or self.count_inner:
+                for name in INNER_STEP_FUNCTIONS:
+                    if hasattr(impl_mod, name):
+                        saved_inner[name] = getattr(impl_mod, name)
+
+                        def wrapped(*a, _f=saved_inner[name], _name=name, **k):
+                            j = sess.inner_calls
+                            sess.inner_calls += 1
+                            if sess.interrupt_at is not None and j == sess.interrupt_at:
+                                raise seams.Crash(f"interrupted when entering inner call {j} ({_name})")
+                            return _f(*a, **k)
+
+                        setattr(impl_mod, name, wrapped)
             try:
                 res = fn()
                 self.progress_calls_total = self.calls
@@ -126,6 +150,8 @@ class Session:
                 return "raised", f"{type(e).__name__}: {str(e)[:200]}"
             finally:
                 impl_mod.MPSBackendImpl.save_simulation = orig_save
+                for name, f in saved_inner.items():
+                    setattr(impl_mod, name, f)
                 logging.getLogger("emulators").handlers.clear()
 
     def run(self, seq, config):
